@@ -4,7 +4,7 @@ from .. import gen as G
 from .common import TRUSTED, ASSUMPTIONS, LEVEL_NOTE, TECHNIQUE
 
 LEVEL = "proof"
-THEOREMS = []
+THEOREMS = ['C20_bop_iff','C20_single_component','C20_refl','C20_symm','C20_mul_eq_iff','C20_mul_single_cell','C20_beyond_tolerance','C20_absDiffEq_fin','C20_relativeEq_fin','C20_ulpsEq_fin']
 RULE = ("bcmp (==, abs_diff_eq, relative_eq, ulps_eq) on pairs of binomial opinions differing in every subset of the four components by "
         "{0, 1 ulp, tol/2, 2*tol, large} x tolerances {0, default, 1e-6, huge} x maxulps {0,1,4}; each pair also reversed (symmetry) and "
         "paired with itself (reflexivity) as cross-case checks; meq on multinomial opinions differing in one cell, sizes 1..4 and 2-D, "
